@@ -27,7 +27,8 @@
 From Coq Require Import NArith ZArith List String Bool.
 From V Require Import Base.UString Base.Json Model.SchemaTypes Model.PyBase Model.Schema Model.SchemaRun
      Spec.StixValid Spec.SchemaRefine Gen.Tables Gen.SpecTables
-     Proofs.SchemaScope Proofs.SchemaProved Proofs.SchemaKnot Proofs.SchemaTables Proofs.SchemaC02.
+     Proofs.SchemaScope Proofs.SchemaProved Proofs.SchemaKnot Proofs.SchemaTables Proofs.SchemaC02
+     Proofs.SchemaCovProved Proofs.SchemaCovKnot Proofs.SchemaCovC02.
 Import ListNotations.
 
 (* The side condition of strict_sound, discharged by the kernel on the tables regenerated from /repo:
@@ -66,6 +67,36 @@ Theorem strict_sound_partial_generated_tables :
     hc = false /\ exists m, valid_obj spec_relaxed pattern_ok m oc (encode false (PObject oc inner dfl hc)) = true.
 Proof. exact strict_sound_partial_lib. Qed.
 Print Assumptions strict_sound_partial_generated_tables.
+
+(* The same statement with the WIDER coverage predicate class_proved2 (Proofs/SchemaCov*.v: identifiers,
+   references, hashes, floats, extensions, timestamp comparisons and conditional co-constraints,
+   socket options are covered as well).  class_proved2 subsumes class_proved on the generated tables
+   (covered2_contains_covered); lib_covered2 is recomputed by the kernel on every build.            *)
+Theorem strict_sound_partial_wide :
+  forall (vr : variant) (ev : env) (w sp : world)
+         (pattern_ok : ver -> ustring -> bool) (selectors_ok : list (ustring * pval) -> pval -> result bool)
+         (fuel n : nat) (req : request) oc inner dfl hc,
+    variant_sound vr = true -> env_ok ev = true -> world_refines w sp = true ->
+    req_strict req = true -> req_scope req = true ->
+    run vr ev w pattern_ok selectors_ok fuel req = Ok (PObject oc inner dfl hc) ->
+    class_proved2 n w oc = true ->
+    hc = false /\ exists m, valid_obj sp pattern_ok m oc (encode false (PObject oc inner dfl hc)) = true.
+Proof. exact strict_sound_partial2_gen. Qed.
+Print Assumptions strict_sound_partial_wide.
+
+Theorem strict_sound_partial_wide_generated_tables :
+  forall (vr : variant) (ev : env) pattern_ok selectors_ok fuel req oc inner dfl hc,
+    variant_sound vr = true -> env_ok ev = true ->
+    req_strict req = true -> req_scope req = true ->
+    run vr ev lib pattern_ok selectors_ok fuel req = Ok (PObject oc inner dfl hc) ->
+    In oc lib_covered2 ->
+    hc = false /\ exists m, valid_obj spec_relaxed pattern_ok m oc (encode false (PObject oc inner dfl hc)) = true.
+Proof. exact strict_sound_partial2_lib. Qed.
+Print Assumptions strict_sound_partial_wide_generated_tables.
+
+Theorem covered2_contains_covered : forallb (fun c => mem_ustr c lib_covered2) lib_covered = true.
+Proof. exact lib_covered_sub. Qed.
+Print Assumptions covered2_contains_covered.
 
 (* the defective variants are refuted: a strict, in-scope request that succeeds and whose serialization
    no validator fuel accepts (the witnesses are also run on the implementation by the check) *)
